@@ -25,6 +25,12 @@ CHECKS["C02"] = dict(level="exploration",
    technique="generator-driven differential runtime monitor with reference value completion, offences known by construction",
    design_ref="DESIGN.md §6 C02, Appendix F2")
 
+CHECKS["C04"] = dict(level="exploration",
+   text="Runtime monitoring of the real admission sequence (ExecutionEngine.Execute, observed at the request-option boundary through the verif engine accessor: admitted iff the request options are reached) on generated schemas x operations with ground truth by construction: valid-by-construction documents must be admitted, documents carrying exactly one rule-targeted mutation (35 operators, one per spec rule, rotated so every operator is exercised at root / nested / fragment sites) must be refused. A case is judged only when gqlparser's validator (independent graphql-js port) agrees with the construction; disagreements are counted per operator as inconclusive. A crash of the admission code is attributed to the input through the case context. Held on the executions observed.",
+   note="Trusted: the generators' construction invariants, gqlparser's validator where it agrees, the reference coercer for the variables self-check. The README tutorial sequence is only observed (counters). Refusals whose message is a variables-validation message are counted here and judged by C06.",
+   technique="runtime monitor with ground truth by construction and rule-targeted mutation, cross-checked by an independent validator",
+   design_ref="DESIGN.md §6 C04")
+
 NOT_YET = {
 }
 
